@@ -26,6 +26,8 @@ func (l *Log) add(fn string, args ...interface{}) {
 	if l == nil {
 		return
 	}
+	logMu.Lock()
+	defer logMu.Unlock()
 	as := make([]Val, len(args))
 	for i, a := range args {
 		as[i] = Abs(a)
